@@ -16,12 +16,16 @@ def ClausesOK (vals : List Clause) : Prop := ∀ c ∈ vals, c ≠ [] ∧ ∀ l 
 theorem header_declares (vals : List Clause) (nv : Nat) (support : List Int) :
     (unigenLines vals nv support).head? = some (headerLine nv vals.length) ∧
     (dimacsLines vals nv).head? = some (headerLine nv vals.length) := by
-  sorry
+  simp [unigenLines, dimacsLines]
 
 /-- `len({abs(v)})`: the declared count of a freshly constructed CNF covers every variable used, once. -/
 theorem distinctVars_complete (vals : List Clause) :
     (distinctVars vals).Nodup ∧ ∀ c ∈ vals, ∀ l ∈ c, l.natAbs ∈ distinctVars vals := by
-  sorry
+  obtain ⟨h1, h2⟩ := eraseDups_spec _ (vals.flatten.map Int.natAbs) (Nat.le_refl _)
+  refine ⟨h1, fun c hc l hl => ?_⟩
+  unfold distinctVars
+  rw [h2, List.mem_map]
+  exact ⟨l, List.mem_flatten.2 ⟨c, hc, hl⟩, rfl⟩
 
 /-- `parse_cnf_file` recovers exactly the clauses (in printed order), the
     sampling set `1..support` and the declared variable count. -/
@@ -50,19 +54,42 @@ theorem update_parse (vals : List Clause) (nv sup : Nat) (sol : List Int) (h : C
 theorem update_models (φ : List Clause) (sol : List Int) (hs : ∀ l ∈ sol, l ≠ 0) (τ : Assign) :
     cnfSat τ (φ ++ [sol.map (fun x => -x)]) = true ↔
       (cnfSat τ φ = true ∧ ¬ (∀ l ∈ sol, litVal τ l = true)) := by
-  sorry
+  have hc : clauseSat τ (sol.map (fun x => -x)) = true ↔ ¬ (∀ l ∈ sol, litVal τ l = true) := by
+    simp only [clauseSat, List.any_map, List.any_eq_true, Function.comp]
+    constructor
+    · rintro ⟨x, hx, h⟩ hall
+      rw [litVal_neg τ x (hs x hx), hall x hx] at h
+      simp at h
+    · intro h
+      simp only [Classical.not_forall] at h
+      obtain ⟨x, hx, h⟩ := h
+      refine ⟨x, hx, ?_⟩
+      rw [litVal_neg τ x (hs x hx)]
+      simpa using h
+  simp only [cnfSat, List.all_append, List.all_cons, List.all_nil, Bool.and_true, Bool.and_eq_true]
+  rw [hc]
 
 /-- Parsed solver output equals the solver's assignment (followed by the
     terminating 0), and cutting it to the support keeps the first `support` literals. -/
 theorem solve_parse (model : List Int) (support : Nat) (hsup : support ≤ model.length) :
     parseSolveOutput (solveOutputLines model) = .ok (model ++ [0]) ∧
     (model ++ [0]).take support = model.take support := by
-  sorry
+  refine ⟨?_, List.take_append_of_le_length hsup⟩
+  simp [solveOutputLines, parseSolveOutput, tokInts_map_zero]
 
 /-- `build_solution` on a UniGen sample line. -/
 theorem buildSolution_line (lits : List Int) (f : Int) :
     buildSolution (Tok.v :: (lits.map Tok.int ++ [Tok.colon f])) = .ok (lits, f) := by
-  sorry
+  have hf : (Tok.v :: (lits.map Tok.int ++ [Tok.colon f])).filter (· ≠ Tok.v)
+      = lits.map Tok.int ++ [Tok.colon f] := by
+    simp [List.filter_append, List.filter_map]
+    congr 1
+    rw [List.filter_eq_self]
+    intro a _
+    simp
+  unfold buildSolution
+  simp only [hf]
+  simp [tokInts_map]
 
 /-- Non-vacuity. -/
 example : parseCnfFile (unigenLines [[1, -2], [3]] 3 (rangeSupport 2))
